@@ -467,6 +467,11 @@ def run(prop, tier):
         exe_zero = e4.build_program(b, name, init='zero')
         exe_plain = e4.build_program(b, name, init='none') if name in STATELESS else None
         scripts, meta = [], {}
+        if name == 'acf-can-listener' and not e4.fd_available(exe, L['modes'][2][1]):
+            # (the program's own --fd option does not reach the receive loop - on the pinned tree it dereferences a null
+            # argument while parsing options, which is outside this property - and there is no mode variable to set)
+            res.incomplete.append('acf-can-listener: FD mode cannot be entered on this tree, its two FD modes are not explored')
+            L = dict(L, modes=[m for m in L['modes'] if m[2] != 'fd'])
         for mlabel, args, presets, mparam in L['modes']:
             temps = L['templates'](mparam)
             # a well-formed conversation for this listener: for CRF in listener mode the AAF datagram follows a CRF datagram
